@@ -2,7 +2,7 @@
    Only statements, each closed by [exact] of a lemma proved in Proofs/, and Print Assumptions.
    The key codec, the packed index and Chunk are the functions GENERATED from the Go source
    (Gen/Arith.v); the run-length algebra and the ROI queries are the models of Model/RLE.v, Model/ROI.v. *)
-From DV Require Import Base.Prelude Base.Int Base.WrapZ Gen.Consts Gen.Arith
+From DV Require Import Base.Prelude Base.Int Base.WrapZ Gen.Consts Gen.Arith Gen.LocalConsts
   Model.Geometry Model.RLE Model.ROI Proofs.Geometry Proofs.RLE Proofs.ROI.
 From Coq Require Import Sorting.Sorted Sorting.Permutation.
 Local Open Scope Z_scope.
@@ -16,6 +16,11 @@ Theorem C18_source_tie :
   /\ g_Point3d_ToZYXBytes = r_Point3d_ToZYXBytes /\ g_Point3d_FromZYXBytes = r_Point3d_FromZYXBytes
   /\ g_Point3d_Chunk = r_Point3d_Chunk.
 Proof. exact source_tie. Qed.
+
+(* the batch / preallocation sizes the driver takes its boundary cases from are declared in the
+   source (Gen/LocalConsts.v is regenerated on every run; a missing declaration fails here) *)
+Example C18_boundary_sizes_declared : 0 < z_roi_PutSpans_BATCH_SIZE /\ 0 < z_dvid_ReadRLEs_maxPrealloc.
+Proof. split; reflexivity. Qed.
 
 (* ---------- block-coordinate keys: for ALL int32 coordinates ---------- *)
 
